@@ -46,3 +46,44 @@ func coverTreesIf(on bool, f *fx.Fixture, r *rand.Rand) []*abs.Tree {
 	}
 	return coverTrees(f, r)
 }
+
+// bareRows keeps of every list entry of t only its key leaves: rows in which every container
+// (and nested list) a path below the row could step through holds no data.
+func bareRows(f *fx.Fixture, t *abs.Tree) *abs.Tree {
+	firstEntry := func(p abs.Path) int {
+		for i, s := range p {
+			if len(s.K) > 0 {
+				return i
+			}
+		}
+		return -1
+	}
+	out := abs.NewTree()
+	for _, c := range t.Cont {
+		if e := firstEntry(c); e < 0 || len(c) == e+1 {
+			out.Cont = append(out.Cont, c)
+		}
+	}
+	for _, l := range t.Leaf {
+		e := firstEntry(l.P)
+		if e < 0 {
+			out.Leaf = append(out.Leaf, l)
+			continue
+		}
+		if len(l.P) == e+2 {
+			if n := f.DS.Node(l.P[:e+1].SPath()); n != nil {
+				for _, k := range n.Keys {
+					if k == l.P[e+1].N {
+						out.Leaf = append(out.Leaf, l)
+					}
+				}
+			}
+		}
+	}
+	for _, o := range t.Ord {
+		if firstEntry(o.P) < 0 {
+			out.Ord = append(out.Ord, o)
+		}
+	}
+	return out.Canon()
+}
